@@ -541,6 +541,7 @@ pub fn trace(case: &Case, instr: &Instr, out: &Outcome) -> Vec<Value> {
         "events": case.events.iter().map(|e| json!({"dir": e.dir, "term": e.term})).collect::<Vec<_>>(),
         "jac": case.jac, "problem": case.problem.kind, "tags": case.tags,
         "errctl": case.method != "RK4",
+        "tinyspan": (case.xend - case.x0).abs() <= 1e-9 && case.xend != case.x0,
         "script": case.script.iter().map(|s| json!({"k": s.k, "action": s.action})).collect::<Vec<_>>(),
         "y0d": digest(case.x0, &case.y0),
         "case_json": case_json(case),
